@@ -533,14 +533,17 @@ func (self *Analyzer) importItem(node pAst.ImportStatement) ast.AnalyzedImport {
 					)
 				}
 
+				importedFn := NewVar(
+					fn.Type(item.Span),
+					item.Span,
+					ImportedVariableOriginKind,
+					false,
+				)
+				importedFn.IsProgramFunction = true
+
 				if prev := self.currentModule.addVar(
 					item.Ident,
-					NewVar(
-						fn.Type(item.Span),
-						item.Span,
-						ImportedVariableOriginKind,
-						false,
-					),
+					importedFn,
 					false,
 				); prev != nil {
 					self.error(fmt.Sprintf("Name '%s' already exists in current scope", item.Ident), nil, item.Span)
